@@ -17,6 +17,7 @@ def step (s : State) (toks : List String) : State × String :=
   | "msg" :: _ => (s, (MsgEmit.handle toks).getD "bad-op")
   | "resp" :: _ => (s, (MsgEmit.handle toks).getD "bad-op")
   | "rt" :: _ => (s, (MsgEmit.handle toks).getD "bad-op")
+  | "tsnew" :: _ => (s, (MsgEmit.handle toks).getD "bad-op")
   | "asm" :: _ => (s, "~")
   | _ => (s, "bad-op")
 
